@@ -24,7 +24,7 @@ import json
 import random
 
 from . import c15
-from .c15 import METHODS, DEG, reproduced_degree, fr, point_of, table_of, make_interp, close, nproc
+from .c15 import METHODS, DEG, reproduced_degree, fr, point_of, table_of, make_interp, close_exact, nproc
 from ..util import pmap
 
 TRAIN = ['slinear', 'lagrange2', 'lagrange3', 'akima', 'cubic', 'scipy_slinear', 'scipy_cubic', 'scipy_quintic']
@@ -149,8 +149,8 @@ def check_group(item):
             gm[j] = (r[1], r[2])
             if repro:
                 cnt['compared'] += 1
-                bad = [i for i in range(dim) if abs(r[2][i] - wd[i]) > c15.ATOL + c15.RTOL * abs(wd[i])]
-                if bad or not close(r[1], wv):
+                bad = [i for i in range(dim) if not close_exact(r[2][i], wd[i], scale)]
+                if bad or not close_exact(r[1], wv, scale):
                     fails[j].append((m, 'InterpND.interpolate(compute_derivative=True)', {'value': r[1], 'gradient': r[2]},
                                      'G1: gradient w.r.t. the query point = exact gradient of the reproduced polynomial'))
             elif j % 2 == 0:
@@ -180,7 +180,7 @@ def check_group(item):
                         continue
                     cnt['compared'] += 1
                     if any(abs(db[j, i] - ref[i]) > dtol(ref[i]) if not repro else
-                           abs(db[j, i] - ref[i]) > c15.ATOL + c15.RTOL * abs(ref[i]) for i in range(dim)):
+                           not close_exact(db[j, i], ref[i], scale) for i in range(dim)):
                         fails[j].append((m, 'InterpND.interpolate(vectorised, compute_derivative=True)',
                                          {'gradient': db[j].tolist(), 'reference': list(ref)},
                                          'G1: gradient w.r.t. the query point = exact gradient of the reproduced polynomial'
@@ -215,7 +215,7 @@ def check_group(item):
                 sw = float(np.sum(np.abs(w)))
                 cnt['compared'] += 1
                 if abs(float(np.sum(w * table)) - v) > WTOL * (1 + scale * sw) or abs(float(np.sum(w)) - 1.0) > WTOL * (1 + sw) \
-                        or (repro and not close(v, wv)):
+                        or (repro and not close_exact(v, wv, scale)):
                     fails[j].append((m, 'InterpND training gradient',
                                      {'value': v, 'w.T': float(np.sum(w * table)), 'sum_w': float(np.sum(w))},
                                      'W2: value = sum_k w_k T_k with the returned weights, sum_k w_k = 1'))
@@ -346,7 +346,7 @@ def check_spline(s0, pts, table, t2, scale, scale2, fails, cnt):
             x, wv, wd, hat = pts[j]
             cnt['compared'] += 1
             sw = float(np.sum(np.abs(J[k])))
-            if abs(float(J[k] @ table) - r[k]) > WTOL * (1 + scale * sw) or (repro and not close(r[k], wv)):
+            if abs(float(J[k] @ table) - r[k]) > WTOL * (1 + scale * sw) or (repro and not close_exact(r[k], wv, scale)):
                 fails[j].append((m, 'InterpND.evaluate_spline', {'value': float(r[k]), 'J.T': float(J[k] @ table)},
                                  'S: spline value = J . control values (and the exact polynomial for a reproduced class)'))
             if m != 'bsplines' and abs(float(np.sum(J[k])) - 1.0) > WTOL * (1 + sw):
@@ -427,6 +427,11 @@ def replay(ctx):
     with open(ctx.replay) as f:
         rec = json.load(f)
     s, o = rec['scenario'], rec['expected']
+    # the laws are re-checked by TLC on a small bound; the stored expectation must equal the Fraction reference
+    cfg = c15.write_cfg(ctx, 'InterpReplay.cfg', dims=[1], npoly=1, all1d=False, nrep=2, nrep3=1, full2d=False,
+                    interior=False, exset=[True, False])
+    c15.run_tlc(ctx, cfg, timeout=600)
+    c15.crosscheck({'s': s, 'o': o})
     item = build_items([(s, [{'s': s, 'o': o}])], ctx, 1, 1)[0]
     cnt, fails = check_group(item)
     ctx.impl = 1
@@ -511,5 +516,5 @@ def run(ctx):
         'd value / d table through InterpND is obtained the way MetaModelStructuredComp obtains it (_compute_d_dvalues / '
         '_d_dvalues, else training_gradients); fixed-dimension variants do not offer it (documented RuntimeError)',
         'bsplines: only linearity in the control points and value = J.cp are checked',
-        'float comparison with the spec: |obs - exact| <= 1e-9 + 1e-9*|exact|; hat weights at 1e-12',
+        'float comparison with the spec: |obs - exact| <= 1e-9 + 1e-9*|exact| + 1e-11*max|table|; hat weights at 1e-12',
     ]
